@@ -126,6 +126,34 @@ def check_case(case):
         f000 = F_of(zero, None, (0, 0, 0))
         want = g.nsymop * (0.8 * O.formfactor_ref(ff["FE"], 0.0) + 0.5 * O.formfactor_ref(ff["O"], 0.0))
         r.check("F000/scale", abs(f000 - want) / scale, 1e-9, "%s:F000" % tag, "F(000) at zero displacement = occupancy-weighted form-factor sum", want, [f000.real, f000.imag])
+        # argument kinds for the cell: all-integer cells as int list / int array / tuple / float32, and ndarray cells under coarse
+        # numpy print options after a look-alike cell (environment)
+        icell = {"triclinic": [5, 6, 7, 80, 95, 100], "monoclinic": [5, 6, 7, 90, 104, 90], "orthorhombic": [5, 6, 7, 90, 90, 90], "tetragonal": [5, 5, 7, 90, 90, 90],
+                 "trigonal": [5, 5, 7, 90, 90, 120], "hexagonal": [5, 5, 7, 90, 90, 120], "cubic": [5, 5, 5, 90, 90, 90]}[g.crystal_system]
+        if g.cell_choice == "rhombohedral":
+            icell = [5, 5, 5, 75, 75, 75]
+        fcell = [float(x) for x in icell]
+        spec = [dict(el="FE", pos=(0.1234, 0.2345, 0.3456), adp_type="Uani", adp=uani1, occ=0.8, mult=g.nsymop),
+                dict(el="O", pos=(0.41, 0.07, 0.77), adp_type="Uiso", adp=0.02, occ=1.0, mult=g.nsymop)]
+        scale2 = sum(a["occ"] * O.Z[a["el"]] * a["mult"] for a in spec)
+        old = np.get_printoptions()
+        np.set_printoptions(precision=2, suppress=True)
+        try:
+            near = np.array(fcell) * np.array([1 + 3e-4, 1 + 3e-4, 1 + 3e-4, 1, 1, 1])
+            for h in hk[:5]:
+                structure.StructureFactor(h, near, name, make_atoms(structure, spec), DISP_FULL)
+                ref = O.p1_structure_factor(h, fcell, g.rot, g.trans, ops, spec, DISP_FULL, ff)
+                for kn, arg in (("int list", list(icell)), ("int64 array", np.array(icell, dtype=np.int64)), ("tuple", tuple(icell)), ("float64 array", np.array(fcell)),
+                                ("float32 array", np.array(fcell, dtype=np.float32))):
+                    try:
+                        got = complex(*structure.StructureFactor(h, arg, name, make_atoms(structure, spec), DISP_FULL))
+                        dv = max(abs(got.real - ref.real), abs(got.imag - ref.imag)) / scale2
+                    except Exception as ex:
+                        dv = float("inf")
+                    r.check("cell-argkind/scale", dv, 1e-5 if kn.startswith("float32") else 1e-9, "%s:cell as %s:h=%s" % (tag, kn, h),
+                            "StructureFactor = explicit sum for a cell given as %s" % kn)
+        finally:
+            np.set_printoptions(**old)
         r.states = len(H) * 5 + len(hk) * 3
     elif case["part"] == "history":
         # the SAME atom objects evaluated first in this cell and group, then in other cells / with adp edited in place, then here again
